@@ -41,22 +41,22 @@ section
 variable (mn : Id → Option Nat) (ma : Id → Nat → Nat → Option (Nat × Nat))
 
 def DNode (t : VExpr) : Prop :=
-  ∀ (lvl : Bool) (id : Id) (ts' : List VExpr), repl mn ma id t = .ok ts' →
+  ∀ (lvl : Bool) (id : Id) (ts' : List VExpr), repl cseName mn ma id t = .ok ts' →
     (∀ ev ∈ trace mn ma lvl id t, EvPos ev) →
     freeAxesL ts' = (trace mn ma lvl id t).flatMap outDecls ∧ freeAxes t = (trace mn ma lvl id t).flatMap inDecls
 
 def DList (l : List VExpr) : Prop :=
   (∀ (lvl : Bool) (pid : Id) (n i skip : Nat) (ts' : List VExpr),
-    replL mn ma pid n i skip l = .ok ts' → (∀ ev ∈ traceL mn ma lvl pid n i skip l, EvPos ev) →
+    replL cseName mn ma pid n i skip l = .ok ts' → (∀ ev ∈ traceL mn ma lvl pid n i skip l, EvPos ev) →
     freeAxesL ts' = (traceL mn ma lvl pid n i skip l).flatMap outDecls ∧
       freeAxesL (l.drop skip) = (traceL mn ma lvl pid n i skip l).flatMap inDecls) ∧
   (∀ (lvl : Bool) (pid : Id) (k : Nat) (ts' : List VExpr),
-    replC mn ma pid k l = .ok ts' → (∀ ev ∈ traceC mn ma lvl pid k l, EvPos ev) →
+    replC cseName mn ma pid k l = .ok ts' → (∀ ev ∈ traceC mn ma lvl pid k l, EvPos ev) →
     freeAxesL ts' = (traceC mn ma lvl pid k l).flatMap outDecls ∧
       freeAxesL l = (traceC mn ma lvl pid k l).flatMap inDecls)
 
 theorem dNode_matched {id : Id} {k : Nat} (hm : mn id = some k) (t : VExpr) (lvl : Bool) (ts' : List VExpr)
-    (hr : repl mn ma id t = .ok ts') :
+    (hr : repl cseName mn ma id t = .ok ts') :
     freeAxesL ts' = (trace mn ma lvl id t).flatMap outDecls ∧ freeAxes t = (trace mn ma lvl id t).flatMap inDecls := by
   rw [repl_matched mn ma hm] at hr
   rw [trace_matched mn ma hm]
